@@ -91,4 +91,25 @@ PROPS = {
         "level_note": "Trusts the reference model.",
         "stages": [rapid_stage("merge-thesaurus", "TestC13", 250, 1500)],
     },
+    "C08": {
+        "level": "exploration",
+        "rule": "rapid-generated term sets (0..14 terms over the bytes {0x00,a,b,c,0x7f,é}, lengths 0..4, each term in one or several of 1..6 documents, ~45 % single-document terms so that merges produce 1-hit dictionary entries, a second field with its own terms) x provenance {built, opened, merged once, merged twice} x chunk mode x 1..6 queries (automaton in {nil, match-all, never, exact, prefix, vellum regexp from a small grammar, vellum levenshtein distance 1-2, contains-byte, length-mod-3} x key range with either bound absent or start < end taken from the terms and their neighbours, on existing, other and unknown fields); oracle = brute force over the model's sorted term list running the same automaton object byte by byte; non-trivial = >= 3 terms, the automaton accepts a proper non-empty subset and the range cuts >= 1 term",
+        "assumptions": COMMON_ASSUME + ["an empty end key is treated as an absent bound (nil and empty slices are the same bound for the FST library), so it is not generated", "vellum's regexp / levenshtein automata are trusted as automata: the oracle runs the same automaton object over each term"],
+        "technique": "property-based testing (rapid): dictionary iteration vs. brute-force filter of the reference model's term list with the same automaton",
+        "level_text": "Randomised exploration with shrinking over term sets, automata, ranges and segment provenance (which changes the 1-hit encoding of single-document terms).",
+        "level_note": "Trusts vellum's FST and automata implementations and the reference model.",
+        "stages": [rapid_stage("dictionary", "TestC08", 400, 3000)],
+    },
+    "C12": {
+        "level": "exploration",
+        "rule": "rapid-generated batches over schemas with 1..3 thesauri, ~65 % synonym documents (1..3 left-hand terms with 1..3 synonyms each from a shared vocabulary of 4 or 9 strings) mixed with ordinary documents; each is observed in memory and after persist+open: term enumeration per thesaurus, Contains, SynonymsList for every term (plus unknown terms/thesauri and ordinary field names) under nil, palette and random exclusion bitmaps, with and without passing the previous list/iterator back as preallocation; non-trivial = a term defined by >= 2 documents with an exclusion bitmap hitting some but not all of them",
+        "assumptions": COMMON_ASSUME + ["synonym terms and synonyms are non-empty and every left-hand term has >= 1 synonym; synonym fields occur only in synonym documents, one per document"],
+        "technique": "property-based testing (rapid): thesaurus lookups vs. reference model, in-memory and re-opened, with exclusion bitmaps and preallocation reuse",
+        "level_text": "Randomised exploration with shrinking against the reference model for both build tags.",
+        "level_note": "Trusts the reference model; the vectors-tag stage runs against the fake vector engine.",
+        "stages": [
+            rapid_stage("thesaurus", "TestC12", 300, 2000),
+            rapid_stage("thesaurus-vectors", "TestC12", 120, 600, tags="verif,vectors", tshards=4),
+        ],
+    },
 }
